@@ -192,6 +192,56 @@ def check_lub(ctx, rule):
         ctx.note("%s lub: %d arms, %d formers" % (label, len(table), len(vs)))
     _check_inner_matches(ctx, rule)
     _check_ann(ctx, rule)
+    check_debruijn(ctx, "binder-levels")
+
+
+def check_debruijn(ctx, rule):
+    """The binder correspondence of alpha-equivalence: each binder pair entered gets its own level."""
+    from .. import mirlib as M, symval
+    facts = ctx.facts
+    ctx.rule(rule, "Debruijn (the binder correspondence used by definitional equality): on every path `insert` returns a "
+                   "correspondence whose level is the old level + 1 and records the left binder in `lhs` and the right binder in "
+                   "`rhs`, both at the OLD level; lookup_lhs reads `lhs` and lookup_rhs reads `rhs` (symbolic value flow over MIR): "
+                   "two bound variables are equal only when bound by the same pair of binders")
+    base = "zydeco_statics::check::lub::Debruijn::"
+    m = facts.mir(base + "insert")
+    if m is None:
+        ctx.anchor_lost(rule, base + "insert not found")
+        return
+    ctx.fn(base + "insert")
+    loc = facts.bodies()[base + "insert"]["loc"]
+    sv = symval.SymValues(M.Body(base + "insert", m))
+    rets = sv.at_returns(("f0:level",))
+    ctx.check(sv.stable and rets and all(v == "(+ (. $P0 level) 1)" for v in rets.values()), rule, "insert:level",
+              "Debruijn::insert returns level = %s (must be the old level + 1 on every path): nested binders are paired at the "
+              "same level, so ANY bound variable of the left type equals ANY bound variable of the right type"
+              % sorted(set(rets.values())), loc, detail={"level_at_return": sorted(set(rets.values()))})
+    ins = sv.call_args(lambda f: f.endswith("HashMap::<K, V, S, A>::insert"))
+    sides = {}
+    for bb, fn, args in ins:
+        side = "lhs" if "(. $P0 lhs)" in args[0] else "rhs" if "(. $P0 rhs)" in args[0] else "?"
+        sides.setdefault(side, []).append(args)
+    for side, param in (("lhs", "$P1"), ("rhs", "$P2")):
+        a = sides.get(side, [])
+        ok = len(a) == 1 and param in a[0][1] and a[0][2] == "(. $P0 level)"
+        ctx.check(ok, rule, "insert:%s" % side,
+                  "Debruijn::insert must record the %s binder (%s) in `%s` at the old level; it records %s" % (side, param, side, a),
+                  loc, detail={"records": a})
+    ctx.check("?" not in sides, rule, "insert:other-map", "Debruijn::insert writes a map other than lhs / rhs: %s" % sides.get("?"), loc)
+    for side in ("lhs", "rhs"):
+        fn = base + "lookup_" + side
+        m = facts.mir(fn)
+        if m is None:
+            ctx.anchor_lost(rule, fn + " not found")
+            continue
+        ctx.fn(fn)
+        sv = symval.SymValues(M.Body(fn, m))
+        gets = sv.call_args(lambda f: f.endswith("HashMap::<K, V, S, A>::get"))
+        ok = len(gets) == 1 and ("(. (. $P0 *) %s)" % side) in gets[0][2][0] and "$P1" in gets[0][2][1]
+        r = sv.at_returns(())
+        ok = ok and all("HashMap::<K, V, S, A>::get" in v for v in r.values())
+        ctx.check(ok, rule, "lookup_%s" % side, "Debruijn::lookup_%s must return the level recorded for its argument in `%s`; it "
+                  "reads %s" % (side, side, [g[2] for g in gets]), facts.bodies()[fn]["loc"], detail={"reads": [g[2] for g in gets]})
 
 
 def _guards(row):
